@@ -5,6 +5,18 @@ TRUST = ("Trusted: rustc nightly MIR construction and callee resolution; pegv's 
          "combinators; dependencies (proc_macro2, quote, anyhow, crc, colored, nohash-hasher) not analysed internally. ")
 
 CHECKS = {
+ "C01": {
+  "category": "translation_validation",
+  "technique": "static translation validation: lifting generated parsers from MIR to parser terms and comparing with the terms the grammar denotes; scenario enumeration of terminal-matcher decision trees; generator-level identity flows",
+  "text": "Every rule of every analysed grammar (1157 rules: 27+2 test grammars, macro test, the bootstrapped front end, 16 corpus modules incl. every construct nested in every other in skipping and non-skipping rules) is lifted from the MIR of its generated functions to a term of a small parser algebra (literal/range/$/char/rule ref, whitespace-skipped atom, seq, ordered choice, optional, star, plus, not, and, @char class, extern) by rewriting over the reconstructed dataflow - state threading of `?` chains, ChoiceHelper chains, or_else handlers, the closure loop, lookahead matches - and compared with the term an independent reader of the grammar text derives (literals decoded independently, includes expanded under the includer's mode). Any function the lifter cannot interpret is an alarm (UNLIFTABLE). Under the terminal contracts (decided by enumerating 264 scenarios of the matchers' decision trees) and the combinator axioms, equality of terms means the generated parser recognises exactly the PEG language, for all inputs of the analysed grammars. Generator level: literal and range constants reach the output unchanged (or ASCII-lower-cased), parts/choices are visited in order.",
+  "note": TRUST + "Termination is assumed (well-formedness). Grammars outside the analysed set are covered only as far as templates are compositional; the corpus enumerates construct x construct x skip mode.",
+ },
+ "C17": {
+  "category": "translation_validation",
+  "technique": "static translation validation of the bootstrap: lifted terms of shipped generated.rs vs grammar.ebnf vs the stage-2 front end generated in the corpus crate",
+  "text": "The literal byte fixpoint needs the generator to run twice and is not decided. Decided: the header CRC of the shipped front end equals CRC-32 of grammar.ebnf; all 50 rule functions of the shipped front end lift to the terms grammar.ebnf denotes; the stage-2 front end that the tree's own generator produces from grammar.ebnf (a source file in the corpus crate, type-checked, never executed) lifts to exactly the same 50 terms and declares exactly the same public types. Equal normal forms mean the two front ends read every grammar text, valid or not, to the same structure or the same failure offset.",
+  "note": TRUST + "Under C01.prim/C01.ax. Stage 3 and byte identity are not decided.",
+ },
  "C03": {
   "category": "other",
   "technique": "finite-domain evaluation of the arity lattice, per-arity template tables read off quote! pushes, declared-type comparison (rustc-resolved ADTs vs an independent model of the documented mapping), rustc as witness on a corpus",
@@ -18,15 +30,15 @@ CHECKS = {
   "note": TRUST + "Clause-level claim; see DESIGN.md C11.",
  },
  "C12": {
-  "category": "other",
+  "category": "translation_validation",
   "technique": "finite-function extraction (match tables), forward symbolic evaluation of all 32 digit-presence paths of the unicode escape decoder, grammar-of-grammars token-atomicity lint, header CRC",
-  "text": "Escape decoding is decided exactly (6 simple escapes against the spellings read from grammar.ebnf; \\xXX = d1*16+d2; unicode escapes = left fold acc*16+digit over present digits on all 32 paths, from_u32 None -> error; HexChar = [0-9a-fA-F]); Rule::flags maps each directive spelling to exactly its flag; the token rules of grammar.ebnf are @no_skip_ws (no skipping inside a token); the shipped front end's header CRC equals CRC-32 of today's grammar.ebnf. The front end's structure (precedence, brackets, quote styles) is decided by lifting generated.rs and comparing with grammar.ebnf once the lifter covers it (C12.front).",
+  "text": "Escape decoding is decided exactly (6 simple escapes against the spellings read from grammar.ebnf; \\xXX = d1*16+d2; unicode escapes = left fold acc*16+digit over present digits on all 32 paths, from_u32 None -> error; HexChar = [0-9a-fA-F]); Rule::flags maps each directive spelling to exactly its flag; the token rules of grammar.ebnf are @no_skip_ws (no skipping inside a token); the shipped front end's header CRC equals CRC-32 of today's grammar.ebnf. The front end's structure (choice loosest, then sequence, then prefix lookaheads; brackets; both quote styles; directive order; Whitespace/Comment before every token of skipping rules) is decided by lifting all 50 rule functions of generated.rs from MIR and comparing them with the terms grammar.ebnf denotes (C12.front).",
   "note": TRUST + "That grammar.ebnf denotes the prose of the syntax reference is not decided beyond the token rule.",
  },
  "C13": {
-  "category": "other",
+  "category": "translation_validation",
   "technique": "generator-level identity-flow rule (delegation with own arguments), read-set of the include lookup, settings threading",
-  "text": "For all grammars: every Codegen method of IncludeRule returns the result of the same method on the included rule's `definition` called with the caller's own arguments; the lookup reads only `name` and `definition` of the found rule (its directives cannot matter); Group delegates identically; settings are handed on unchanged (shared with C08.thread). Hence `>R` and the parenthesised body of R are compiled by the same code with the same inputs. Twin grammars (include_a / include_b) are in the corpus for the lifter comparison.",
+  "text": "For all grammars: every Codegen method of IncludeRule returns the result of the same method on the included rule's `definition` called with the caller's own arguments; the lookup reads only `name` and `definition` of the found rule (its directives cannot matter); Group delegates identically; settings are handed on unchanged (shared with C08.thread). Hence `>R` and the parenthesised body of R are compiled by the same code with the same inputs. Twin grammars in the corpus (include_a uses >Rule, include_b the parenthesised body at 17 positions: sequence/choice/optional/closure/nested include/lookahead, skipping and non-skipping includers, @position/@memoize includers) lift to identical terms and declare identical types.",
   "note": TRUST + "Equality of the two generated parsers on all inputs is argued from identical generation, not tested.",
  },
  "C18": {
@@ -111,4 +123,4 @@ CHECKS = {
 
 _PENDING = "check not built yet in this round (design in DESIGN.md §3); no verdict is claimed until it is"
 NOT_APPLICABLE = {pid: _PENDING for pid in
-  ["C01","C02","C17"]}
+  ["C02"]}
